@@ -97,6 +97,11 @@ def scenario(n, path, rstack, drops, again):
                 w.ncp.boot_delay = 0.4
                 w.loop.call_later(0.05, lambda: (w.ncp.out.__setitem__(slice(0, 0), held), w.pump()))
             if again:
+                if rstack == "dup":
+                    # by the time of a later reset the application has registered its callback with EZSP (as ControllerApplication does
+                    # after start-up): the duplicated acknowledgement is still just a duplicate
+                    out["app_requests"] = []
+                    w.ezsp.add_callback(lambda name, args: out["app_requests"].append(name) if name.startswith("_") else None)
                 out["n2"] = len(w.ncp.rx_frames)
                 out["w2"] = len([1 for d, b in w.wire_log if d == "h2n"])
                 if again == "lost":
